@@ -108,30 +108,26 @@ theorem default_site_faithful (pr : Char → Bool) (v : PyVal) :
     simp [StringSite.faithful, repr_safe]
   | _ => exact reprSites_faithful pr "default-repr" _ site (by simpa [defaultSites] using hs)
 
-/-- full statement (false today, residue NUL): every description becomes the docstring it was
-    meant to be -/
+/-- full statement (true since the repair of `unescaped:description-nul`): every description becomes
+    the docstring it was meant to be -/
 def description_statement : Prop := ∀ d : String, pyLexStr (docWrap d) = some (docValue d)
 
-/-- the docstring template with `_docstring_text` escaping is faithful for every description
-    without a NUL character (quotes, `"""`, backslashes, CR, newlines, non-ASCII all included) -/
-theorem description_safe (d : String) (h : cNUL ∉ d.toList) :
+/-- the docstring template with `_docstring_text` escaping is faithful for EVERY description (quotes,
+    `"""`, backslashes, CR, NUL, newlines, non-ASCII all included) -/
+theorem description_safe (d : String) :
     pyLexStr (docWrap d) = some (docValue d) := by
-  simp only [pyLexStr, docWrap, docValue, String.toList_ofList, lexSrc_docWrapL d.toList h,
+  simp only [pyLexStr, docWrap, docValue, String.toList_ofList, lexSrc_docWrapL d.toList,
     Option.map_some]
 
-theorem description_site_faithful (d : String) (h : cNUL ∉ d.toList) :
+theorem description_site_faithful (d : String) :
     (descriptionSite d).faithful = true := by
-  simp [StringSite.faithful, descriptionSite, description_safe d h]
+  simp [StringSite.faithful, descriptionSite, description_safe d]
 
-/-- finding `unescaped:description-nul`: a NUL in the description is pasted into the source as is
-    ("source code string cannot contain null bytes") -/
-theorem unescaped_description_nul :
-    (descriptionSite (String.ofList ['a', cNUL, 'b'])).faithful = false := by decide
-theorem description_statement_false : ¬ description_statement := by
-  intro h
-  have := h (String.ofList ['a', cNUL, 'b'])
-  revert this
-  decide
+/-- repaired finding `unescaped:description-nul`: a NUL in the description is written `\x00` and comes
+    back as NUL -/
+theorem fixed_description_nul :
+    (descriptionSite (String.ofList ['a', cNUL, 'b'])).faithful = true := by decide
+theorem description_statement_holds : description_statement := description_safe
 
 /-- every string-bearing site of every schema (patterns, enum members, `_required`, defaults, at
     any nesting depth) is emitted as a literal that denotes exactly the schema's string -/
@@ -388,10 +384,11 @@ theorem counterexample_name_not_identifier :
       = .reject := by decide
 
 set_option maxRecDepth 100000 in
-/-- finding `unescaped:description-nul`, at module level: a NUL in the description is pasted raw -/
-theorem counterexample_description_nul :
+/-- repaired finding `unescaped:description-nul`, at module level: a NUL in the description is escaped
+    and the module is accepted -/
+theorem fixed_description_nul_module :
     recognise Ora.ascii (moduleText exOra false [] ⟨"Foo", some (String.singleton cNUL), objOf "p"⟩)
-      = .reject := by decide
+      = .accept := by decide
 
 theorem always_compiles_statement_false : ¬ always_compiles_statement := fun h =>
   absurd (h Ora.ascii exOra false [] ⟨"Foo", none, objOf "my-prop"⟩ exOra_ok)
